@@ -163,7 +163,15 @@ func (fx *FuncExec) oblige(kind string, st *State, goal string, desc string, pos
 func (fx *FuncExec) assume(st *State, fact string) {
 	fx.em.Assert(imp(st.pc, fact))
 	if recs, ok := fx.quantsOf[fact]; ok && fx.discard == 0 {
-		fx.qfacts = append(fx.qfacts, qfact{prefix: len(fx.em.lines), pc: st.pc, clause: fact, recs: recs})
+		var us []quantRec
+		for _, r := range recs {
+			if !r.exists {
+				us = append(us, r)
+			}
+		}
+		if len(us) > 0 {
+			fx.qfacts = append(fx.qfacts, qfact{prefix: len(fx.em.lines), pc: st.pc, clause: fact, recs: us})
+		}
 	}
 }
 
@@ -204,6 +212,24 @@ func (fx *FuncExec) skolemize(st *State, ob *Obligation) {
 	}
 	goal := ob.goal
 	var terms []string
+	var univ []quantRec
+	for _, r := range recs {
+		if r.exists {
+			// an existential to prove: the hints are candidate witnesses (proving the disjunction of
+			// the instances proves the existential)
+			if len(hints) > 0 {
+				var ds []string
+				for _, h := range hints {
+					ds = append(ds, strings.ReplaceAll(r.body, r.bound, h))
+				}
+				ds = append(ds, r.text)
+				goal = strings.Replace(goal, r.text, or(ds...), 1)
+			}
+			continue
+		}
+		univ = append(univ, r)
+	}
+	recs = univ
 	for i, r := range recs {
 		sk := fmt.Sprintf("|sk%d!%d|", i, fx.em.n)
 		fx.em.n++
